@@ -31,6 +31,20 @@ Theorem C12_quad_additive : forall (F : numFieldType) n (x w : 'I_n -> F) d a b 
 Proof. exact quad_additive. Qed.
 Print Assumptions C12_quad_additive.
 
+(* T1': hence EVERY polynomial of degree <= d, not just monomials: the rule returns the difference of the antiderivative
+   sum_k p_k t^(k+1)/(k+1) at the two limits, for limits in any order *)
+Theorem C12_mapped_rule_exact_every_polynomial : forall (F : numFieldType) n (x w : 'I_n -> F) d xl xu (p : {poly F}),
+  moments_exact x w d -> (size p <= d.+1)%N ->
+  Q x w xl xu (fun t => p.[t]) = \sum_(k < size p) p`_k * ((xu ^+ k.+1 - xl ^+ k.+1) / k.+1%:R).
+Proof. exact mapped_rule_exact_poly. Qed.
+Print Assumptions C12_mapped_rule_exact_every_polynomial.
+
+(* the rule depends on the integrand through its values only, and is linear over finite sums *)
+Theorem C12_quad_finite_sums : forall (F : numFieldType) n (x w : 'I_n -> F) xl xu m (c : 'I_m -> F) (f : 'I_m -> F -> F),
+  Q x w xl xu (fun t => \sum_k c k * f k t) = \sum_k c k * Q x w xl xu (f k).
+Proof. exact quad_sum. Qed.
+Print Assumptions C12_quad_finite_sums.
+
 (* non-vacuity: the 1-point rule (x = 0, w = 2) satisfies the moment hypothesis up to degree 1 = 2n-1;
    for larger n the hypothesis about numpy's table is checked numerically (exact rational arithmetic on
    the float nodes) by the harness and reported as a test of the oracle, not as a theorem *)
